@@ -221,6 +221,10 @@ impl Boudot2000RangeProof {
     where
         H: Digest,
     {
+        // F is a group element: only its canonical representative in (0, n) is accepted
+        if proof_of_s.F <= 0 || &proof_of_s.F >= n {
+            return false;
+        }
         Self::verify_same_secret::<H>(
             &proof_of_s.F,
             &proof_of_s.E,
@@ -573,6 +577,10 @@ impl Boudot2000RangeProof {
     where
         H: Digest,
     {
+        // E is a group element: only its canonical representative in (0, n) is accepted
+        if self.E <= 0 || &self.E >= n {
+            return false;
+        }
         if self.E_prime == Integer::from(self.E.pow_mod_ref(&Integer::from(2).pow(T), n).unwrap()) {
             let res_verify_ts = Self::verify_of_tolerance_specific::<H>(
                 &self.proof_of_tolerance,
